@@ -27,6 +27,9 @@ func (c *fakeClock) Now() time.Time {
 func (c *fakeClock) Advance(rng *vk.Rand) {
 	c.mu.Lock()
 	c.t = c.t.Add(time.Duration(rng.Range(1, 5000))*time.Second + time.Duration(rng.Intn(1000))*time.Millisecond)
+	if rng.Chance(1, 3) { // whole seconds are ordinary clock readings too (nanos == 0 is the proto3 zero value)
+		c.t = c.t.Truncate(time.Second)
+	}
 	c.mu.Unlock()
 }
 
